@@ -307,6 +307,65 @@ def choices_by_reference() -> Optional[dict]:
     return None
 
 
+def predicates_put_to_other_uses() -> Optional[dict]:
+    """A predicate is the same relation after it has been described as a JSON Schema (alone and through a validator that
+    carries it), printed, compared and hashed: every built-in predicate, parameters of every admitted kind, the whole
+    argument list before and after - and its own attributes are what they were."""
+    import copy
+    from decimal import Decimal
+    from koda_validate import (Choices, EndsWith, EqualTo, ExactItemCount, ExactLength, IntValidator, ListValidator, Max, MaxItems, MaxKeys,
+                               MaxLength, Min, MinItems, MinKeys, MinLength, MultipleOf, StartsWith, StringValidator, UniqueItems,
+                               not_blank, unique_items)
+    from koda_validate.serialization import to_json_schema, to_named_json_schema
+    nums = [None, True, False, 0, 1, 2, 3, -1, 1.0, 2.5, Decimal(1), "a", "", "ab", b"a"]
+    strs_ = ["", "a", "ab", "abc", " ", "b", "ba", None]
+    seqs = [[], [None], [1], [1, None], [None, None], [1, 2, 3], [1, 1], [1, True], (1, None, 3), [[1], [1]], ["a", None, "b"]]
+    maps_ = [{}, {None: 1}, {"a": 1}, {"a": 1, None: 2}, {"a": 1, "b": 2, "c": 3}]
+    table = [(lambda: Choices({None, 1, "a"}), nums), (lambda: Choices({1, 2}), nums), (lambda: Choices({None}), nums), (lambda: Choices({"a", ""}), nums),
+             (lambda: Choices([None, 1]), nums), (lambda: Choices({True, 2.5}), nums),
+             (lambda: EqualTo(1), nums), (lambda: EqualTo(None), nums), (lambda: EqualTo("a"), nums),
+             (lambda: Min(1), [0, 1, 2, 1.0, True]), (lambda: Max(1, exclusive_maximum=True), [0, 1, 2, 1.0]), (lambda: MultipleOf(2), [0, 1, 2, 4, 3]),
+             (lambda: MinLength(1), strs_[:-1]), (lambda: MaxLength(1), strs_[:-1]), (lambda: ExactLength(2), strs_[:-1]),
+             (lambda: StartsWith("a"), strs_[:-1]), (lambda: EndsWith("b"), strs_[:-1]), (lambda: StartsWith(""), strs_[:-1]), (lambda: EndsWith(""), strs_[:-1]),
+             (lambda: not_blank, strs_[:-1]),
+             (lambda: MinItems(1), seqs), (lambda: MinItems(2), seqs), (lambda: MaxItems(1), seqs), (lambda: MaxItems(2), seqs), (lambda: ExactItemCount(2), seqs),
+             (lambda: UniqueItems(), seqs), (lambda: unique_items, seqs),
+             (lambda: MinKeys(1), maps_), (lambda: MinKeys(2), maps_), (lambda: MaxKeys(1), maps_)]
+    for mk, args in table:
+        pred = mk()
+        def vec():
+            out = []
+            for a in args:
+                try:
+                    out.append(pred(copy.deepcopy(a)))
+                except Exception as e:  # noqa
+                    out.append(type(e).__name__)
+            return out
+        before, attrs, rp = vec(), copy.deepcopy(getattr(pred, "__dict__", {})), repr(pred)
+        carriers = [pred]
+        for mkv in (lambda: IntValidator(pred), lambda: StringValidator(pred), lambda: ListValidator(IntValidator(), predicates=[pred])):
+            try:
+                carriers.append(mkv())
+            except Exception:  # noqa
+                pass
+        for cobj in carriers:
+            for use in (lambda: to_json_schema(cobj), lambda: to_named_json_schema("P", cobj), lambda: repr(cobj), lambda: cobj == mk(), lambda: hash(cobj)):
+                try:
+                    use()
+                except Exception:  # noqa
+                    pass
+            after = vec()
+            if after != before or getattr(pred, "__dict__", {}) != attrs or repr(pred) != rp:
+                k = next((i for i, (b_, a_) in enumerate(zip(before, after)) if b_ != a_), None)
+                detail = (f"on {args[k]!r} it answered {before[k]!r} before and {after[k]!r} after" if k is not None
+                          else f"its attributes were {attrs!r} and are {getattr(pred, '__dict__', {})!r}")
+                return {"kind": "oracle", "signature": "C15:other-uses",
+                        "what": f"{rp} is not the same predicate after being described as a JSON Schema / printed / compared / hashed"
+                                f"{'' if cobj is pred else ' through ' + type(cobj).__name__}: {detail}",
+                        "replay_case": {"other_uses": True}}
+    return None
+
+
 def run(tier: str, rng: random.Random, proof_ok: bool) -> dict:
     t0 = time.time()
     items = plane(tier, rng)
@@ -406,6 +465,9 @@ def run(tier: str, rng: random.Random, proof_ok: bool) -> dict:
     cbr = choices_by_reference()
     if cbr:
         violations.append(cbr)
+    pou = predicates_put_to_other_uses()
+    if pou:
+        violations.append(pou)
     cov = {"evaluations": evals, "distinct_nontrivial": len(nontrivial),
            "rule": "exhaustive enumeration of the bounded (predicate/processor parameter, argument) plane of the quantifier plus sampled large values; distinct (term, argument) pairs",
            "exhaustive": True, "samples": samples, "traces_validated_against_impl": evals, "mismatches": mism,
@@ -421,6 +483,10 @@ def replay(path: str) -> int:
     if not rc:
         print("no input in replay file:", j.get("what"))
         return 1
+    if rc.get("other_uses"):
+        r_ = predicates_put_to_other_uses()
+        print("property violated on this history: " + r_["what"] if r_ else "every predicate is the same relation after being described / printed / compared")
+        return 1 if r_ else 0
     if rc.get("choices_by_reference"):
         r_ = choices_by_reference()
         print("property violated on this history: " + r_["what"] if r_ else "Choices follows the set it holds")
